@@ -518,7 +518,15 @@ SHEETS_OPERATOR = ["it's", 'x-y', "a''b", '#REF', 'a$b', 'a,b', 'Tab(1)']
 _OPERATOR_CHARS = set("'-,$()#&+=<>;^{}%")
 
 
-@known_predicate('C05-cse-sheet-name-unquoted')
+@known_predicate('C05-cse-sheet-name-dollar')
+def _cse_dollar_sheet(case):
+    """what is left of the class after repair 4860474: a '$' in the sheet name is dropped when the address text is
+    parsed (sheet a$b is looked up as ab)"""
+    sheet = case.get('sheet')
+    return case.get('call') in ('cse-order', 'cse-range') and isinstance(sheet, str) and '$' in sheet
+
+
+# repaired in /repo 4860474: no longer a registered predicate (a recurrence is reported)
 def _cse_unquoted_sheet(case):
     """a CSE array formula on a sheet whose name has NO space but a character the formula tokenizer reads as an
     operator / punctuation (it's, x-y, a,b, #REF, Tab(1)): quote_sheet quotes only names with a space"""
